@@ -1302,6 +1302,38 @@ theorem commit_core {s : Store} {top : Bool} {p : PNode} {n : Node} (hI : Inv hs
         · simp only [hi, if_false]; exact (hch i hi).2.1
 
 
+omit heq1 heq2 in
+/-- the hasher's nil-interface panic needs a short node with a nil child: not on well-placed tries -/
+theorem hashBad_false {s : Store} {top : Bool} {p : PNode} {n : Node} (hI : Inv hs s top p n) :
+    Placed n → hashBad hx p = false := by
+  induction hI with
+  | empty top => intro _; rfl
+  | value top v => intro _; rfl
+  | hash top h n hb hr hst hcl => intro _; rfl
+  | short top K c n f hIc hF ih =>
+    intro hP
+    cases hcd : cacheDecision hx f with
+    | some hu => simp [hashBad, hcd]
+    | none =>
+      rw [hashBad_short_none hx hcd]
+      cases hIc with
+      | empty => exact absurd rfl hP.1
+      | value _ v => rfl
+      | hash _ h' _ _ _ _ _ => rfl
+      | short _ K' c' n' f' h1 h2 => exact ih hP.2
+      | full _ ch0 ch0' f' h1 h2 => exact ih hP.2
+  | full top ch ch' f hIc hF ih =>
+    intro hP
+    cases hcd : cacheDecision hx f with
+    | some hu => simp [hashBad, hcd]
+    | none =>
+      rw [hashBad_full_none hx hcd, List.any_eq_false]
+      intro i _
+      by_cases hi : i = 16
+      · simp [hi]
+      · simp [hi, ih i (hP.2.2 i)]
+
+
 end hasher
 
 /-! ### the content-addressed store -/
@@ -1570,6 +1602,36 @@ theorem canon_branch_or_empty {n : Node} (hC : Canon n) : n = .empty ∨ Node.is
   | leaf => exact Or.inr rfl
   | ext => exact Or.inr rfl
   | full => exact Or.inr rfl
+
+/-- what `Trie.Commit` returns on a trie of the invariant: the reference root, the hasher's cached
+    trie, the hasher's writes -/
+theorem trie_commit_eq {s : Store} {t : Trie} {n : Node} (hI : Inv (baseH small hashOf) s true t.root n)
+    (hC : Canon n) :
+    t.commit small hashOf = .ok (refRoot (baseH small hashOf) n,
+      { t with root := cachedOf (t.hasher small hashOf true) t.root true, cachegen := (t.cachegen + 1) % 65536 },
+      writes (t.hasher small hashOf true) t.root true) := by
+  obtain ⟨hP, _, hnv⟩ := canon_placed_nes n hC
+  rcases canon_branch_or_empty hC with hn | hb
+  · subst hn
+    have hr := inv_empty_right _ hI
+    simp only [Trie.commit, hr]; rfl
+  · have c1 := hashBad_false (baseH small hashOf) (t.hasher small hashOf true) hI hP
+    have hH := hashed_eq_ref (baseH small hashOf) (t.hasher small hashOf true) rfl rfl hI hP
+    obtain ⟨h, hh⟩ := refC_force_hash (baseH small hashOf) n hb
+    have hroot : refRoot (baseH small hashOf) n = h := by simp [refRoot, hh]
+    have hne : t.root ≠ .empty := by
+      intro he
+      rw [he] at hI
+      cases hI
+      simp [Node.isBranch] at hb
+    rw [hh] at hH
+    unfold Trie.commit
+    cases hr : t.root with
+    | empty => exact absurd hr hne
+    | value v => rw [hr] at hH c1; simp only [c1, hH, hroot]; rfl
+    | hash h0 => rw [hr] at hH c1; simp only [c1, hH, hroot]; rfl
+    | short K c f => rw [hr] at hH c1; simp only [c1, hH, hroot]; rfl
+    | full ch f => rw [hr] at hH c1; simp only [c1, hH, hroot]; rfl
 
 theorem commit_inv (hinj : ∀ a b, hashOf a = hashOf b → a = b) {s : Store} (hS : Sound hashOf s)
     {t : Trie} {n : Node} (hI : Inv (baseH small hashOf) s true t.root n) (hC : Canon n) :
